@@ -59,10 +59,10 @@ fn main() {
                 let mut parts = line.splitn(2, '\t');
                 let req = parts.next().unwrap_or("").to_string();
                 let ann = parts.next().unwrap_or("-").to_string();
-                let r = std::panic::catch_unwind(|| oracle::oracle_line(&req, &ann));
+                let r = std::panic::catch_unwind(|| oracle::oracle_all(&req, &ann));
                 match r {
-                    Ok(Ok(())) => writeln!(out, "OK").unwrap(),
-                    Ok(Err(e)) => writeln!(out, "FAIL {}", e.replace('\n', " ")).unwrap(),
+                    Ok(v) if v.is_empty() => writeln!(out, "OK").unwrap(),
+                    Ok(v) => writeln!(out, "{}", v.iter().map(|e| format!("FAIL {}", e.replace('\n', " "))).collect::<Vec<_>>().join(" || ")).unwrap(),
                     Err(_) => writeln!(out, "FAIL panic").unwrap(),
                 }
                 if flush {
